@@ -530,6 +530,172 @@ def case_key(kind, case):
 
 
 # ---------------------------------------------------------------------------------------------------------------------
+# PostgreSQL: autocommit switching of PGProvider.set_transaction_mode / PGPool.release on a FAKE connection (no server)
+# ---------------------------------------------------------------------------------------------------------------------
+
+class PGFault(Exception): pass
+
+
+def pg_setup():
+    """real PGProvider / PGPool / SessionCache over a fake psycopg2 connection that records what it is asked to do"""
+    ponyutil.add_stubs()
+    import psycopg2
+    from pony.orm import Database, Required, Set, db_session, select, commit, rollback, flush
+    rec = {'log': [], 'n': 0, 'fail': {}}
+    def call(kind, *info):
+        i = rec['n']; rec['n'] += 1
+        exc = rec['fail'].get(i)
+        rec['log'].append([kind, exc is None] + list(info))
+        if exc is not None:
+            e = getattr(psycopg2, exc[0])('injected'); e.pgcode = exc[1]
+            raise e
+    class FakeCursor(object):
+        def __init__(self, con): self.con = con; self.description = (('c', None, None, None, None, None, None),); self.rowcount = 1; self._rows = []
+        def execute(self, sql, args=None):
+            call('execute', ' '.join(sql.split()), self.con._autocommit)
+            self.con.next_id += 1
+            self._rows = [(self.con.next_id,)] if 'RETURNING' in sql.upper() else []
+        def executemany(self, sql, seq): call('executemany', ' '.join(sql.split()), self.con._autocommit)
+        def fetchone(self): return self._rows.pop(0) if self._rows else None
+        def fetchall(self): r, self._rows = self._rows, []; return r
+        def fetchmany(self, n): r, self._rows = self._rows[:n], self._rows[n:]; return r
+        def close(self): pass
+    class FakeCon(object):
+        server_version = 90600
+        def __init__(self): self._autocommit = False; self.next_id = 100; call('connect')
+        autocommit = property(lambda self: self._autocommit)
+        @autocommit.setter
+        def autocommit(self, v): rec['log'].append(['autocommit', True, v]); self._autocommit = v
+        def set_client_encoding(self, e): pass
+        def cursor(self): return FakeCursor(self)
+        def commit(self): call('commit')
+        def rollback(self): call('rollback')
+        def close(self): rec['log'].append(['close', True])
+    psycopg2.connect = lambda *a, **k: FakeCon()
+    db = Database()
+    class T(db.Entity):
+        _table_ = 't'
+        x = Required(int)
+        us = Set('U', table='t_u')
+    class U(db.Entity):
+        _table_ = 'u'
+        n = Required(int, unique=True)
+        ts = Set(T)
+    db.bind('postgres', user='u', password='p', host='h', database='d')
+    db.generate_mapping(create_tables=False, check_tables=False)
+    E = Env()
+    E.db = db; E.T = T; E.U = U; E.H = None; E.db_session = db_session; E.select = select
+    E.commit = commit; E.rollback = rollback; E.flush = flush; E.delete = None
+    return E, rec
+
+
+PG_OPS = ['create_T', 'create_U', 'raw_insert', 'raw_update', 'raw_delete', 'db_insert', 'select', 'raw_select', 'flush',
+          'commit', 'db_commit', 'rollback']
+
+
+def pg_program(rng):
+    prog = []
+    for _ in range(rng.randint(1, 6)):
+        k = rng.choice(PG_OPS)
+        if k == 'create_T': prog.append([k, rng.randint(0, 9)])
+        elif k == 'create_U': prog.append([k, rng.randint(10, 10 ** 6)])
+        elif k in ('raw_insert', 'raw_update', 'db_insert'): prog.append([k, rng.randint(1, 99), 1])
+        elif k == 'raw_delete': prog.append([k, 1])
+        else: prog.append([k])
+    if rng.random() < 0.3: prog.insert(rng.randint(0, len(prog)), ['m2m'])
+    if rng.random() < 0.1: prog.append(['raise'])
+    return prog
+
+
+def pg_run_op(E, op, st):
+    if op[0] == 'm2m':
+        t = E.T(x=1); u = E.U(n=st.setdefault('n', 0) + 10 ** 7); st['n'] += 1; t.us.add(u)
+    else: run_op(E, op, st)
+
+
+def pg_translate(log, start_open):
+    """fake-connection log -> alphabet of Model/TxnProtocol.lean.  PostgreSQL opens a transaction implicitly with the first
+    statement sent while autocommit is off: an explicit `begin` is inserted there; a statement sent while autocommit is on
+    is passed as it is (a write then leaves L).  Returns (events, problems)"""
+    evs, problems = [], []
+    auto, opened = False, start_open
+    for e in log:
+        kind, ok = e[0], e[1]
+        if kind == 'autocommit':
+            if e[2] and opened: problems.append('autocommit switched on inside an open transaction')
+            auto = e[2]
+        elif kind == 'connect':
+            evs.append(['connect', ok]); auto, opened = False, False
+        elif kind in ('execute', 'executemany'):
+            sql = e[2].upper()
+            write = kind == 'executemany' or sql.split(' ', 1)[0] in ('INSERT', 'UPDATE', 'DELETE')
+            if not e[3] and not opened:
+                evs.append(['begin', True]); opened = True
+            evs.append(['write', ok, []] if write else ['read', ok])
+        elif kind in ('commit', 'rollback'):
+            evs.append([kind, ok])
+            if ok: opened = False
+        elif kind == 'close':
+            evs.append(['close', True]); opened = False
+    return evs, problems
+
+
+def pg_part(ctx):
+    try:
+        E, rec = pg_setup()
+    except Exception as e:
+        ctx.note('PostgreSQL provider not importable offline: %r' % (e,)); return
+    rng = ctx.rng
+    progs = [[['create_T', 1]], [['select'], ['create_T', 1], ['raw_insert', 1, 1]], [['raw_insert', 1, 1], ['create_T', 2]], [['m2m']],
+             [['create_T', 1], ['commit'], ['raw_update', 1, 2]], [['select'], ['raw_select']], [['create_T', 1], ['flush'], ['raise']],
+             [['create_T', 1], ['flush'], ['rollback'], ['create_T', 2]]]
+    progs += [pg_program(rng) for _ in range(ctx.scale(25, 200))]
+    cases = []
+    for prog in progs:
+        for mode in SESSION_OPTS: cases.append((prog, mode, {}))
+    reqs, meta = [], []
+    def one(prog, mode, fail):
+        rec['log'] = []; rec['n'] = 0; rec['fail'] = dict(fail)
+        pool = E.db.provider.pool
+        phase = 'auto' if getattr(pool, 'con', None) is not None else 'idle'
+        st = {}
+        exc = None
+        try:
+            with E.db_session(**SESSION_OPTS[mode]):
+                for op in prog: pg_run_op(E, op, st)
+        except Exception as e: exc = e
+        rec['fail'] = {}
+        log, ncalls = rec['log'], rec['n']
+        evs, problems = pg_translate(log, False)
+        return phase, evs, problems, ncalls, type(exc).__name__ if exc is not None else None
+    for prog, mode, _ in cases:
+        phase, evs, problems, n, exc = one(prog, mode, {})
+        reqs.append({'op': 'run', 'phase': phase, 'pre': [], 'events': evs}); meta.append((prog, mode, {}, problems, exc))
+        ks = range(n) if ctx.thorough or len(prog) <= 2 else sorted(rng.sample(range(n), min(n, 3)))
+        for k in ks:
+            for excinfo in (('OperationalError', None), ('IntegrityError', '23505')):      # the first makes should_reconnect() true
+                if excinfo[0] == 'IntegrityError' and not ctx.thorough and k % 2: continue
+                phase, evs, problems, _, exc = one(prog, mode, {k: excinfo})
+                reqs.append({'op': 'run', 'phase': phase, 'pre': [], 'events': evs}); meta.append((prog, mode, {k: excinfo[0]}, problems, exc))
+    try: E.db.disconnect()
+    except Exception: pass
+    if not ctx.driver.ok: return
+    outs = ctx.driver('C17', reqs)
+    for (prog, mode, fail, problems, exc), rq, m in zip(meta, reqs, outs):
+        cj = {'pg_program': prog, 'opts': mode, 'pg_faults': {str(k): v for k, v in fail.items()}}
+        ctx.case(['pg', prog, mode, sorted(fail.items())], nontrivial=True, kind='pg-fake-connection')
+        ctx.count('pg-outcome:' + (exc or 'ok'))
+        for p in problems: ctx.divergence('PostgreSQL fake connection: ' + p, cj, impl=rq['events'])
+        if 'driver_error' in m: ctx.divergence('driver error', cj, model=m); continue
+        if not m['accepted']:
+            i = m['rejectedAt']
+            ctx.divergence('PostgreSQL provider on a fake connection: the call sequence is not a word of L (rejected at event %s = %r): '
+                           'a write statement is sent in autocommit mode' % (i, rq['events'][i] if i is not None else None), cj, model=m['phases'], impl=rq['events'])
+        elif not m['complete']:
+            ctx.divergence('PostgreSQL provider on a fake connection: the session ends with its transaction open', cj, model=m['phases'][-3:], impl=rq['events'][-6:])
+
+
+# ---------------------------------------------------------------------------------------------------------------------
 # workers
 # ---------------------------------------------------------------------------------------------------------------------
 
@@ -619,6 +785,7 @@ def _run(ctx, workdir):
     template = os.path.join(workdir, 'template.sqlite')
     make_template(template)
     if not ctx.driver.ok: ctx.note('driver unavailable: correspondence skipped, property oracle only')
+    pg_part(ctx)
 
     # ---- 1. fault-free baselines --------------------------------------------------------------------------------
     g = Gen()
